@@ -292,7 +292,7 @@ def runHeap (req : Json) : R Json := do
   let a := (Spec.construct srr ls givenV cfgV).run sim.cops
   pure (jObj [
     ("model", obsModel s []),
-    ("spec", jOpt (obsSpec · []) a),
+    ("spec", jOpt (obsSpec · rds) a),
     ("errs", jList (jOpt jErr) sim.errs),
     ("sim", jList jBool sim.sim),
     ("unchanged", jList jBool sim.unchanged),
